@@ -143,14 +143,14 @@ def fuCont (d : Dec) (seq : UInt16) (b2 : UInt8) (data : Bytes) : Dec × NRes :=
     let sz := d.fragmentsSize + data.length
     if sz > maxAU then (d.resetFragments, .err)
     else
-      -- /repo fix fc590d9: a fragment without data is accepted but not stored
+      -- /repo fix f1b05d6: a fragment without data is accepted but not stored
       let d1 : Dec := { d with fragmentsSize := sz,
                                fragments := pushFrag d.fragments data,
                                fragmentNextSeqNum := d.fragmentNextSeqNum + 1 }
       if (b2 >>> 6) &&& 0x01 ≠ 1 then (d1, .more)
       else
         let ns := splitNALUs (joinFragments d1.fragments d1.fragmentsSize)
-        if ns.length = 0 then (d1.resetFragments, .err)   -- /repo fix e75535c: only start codes
+        if ns.length = 0 then (d1.resetFragments, .err)   -- /repo fix a0e65b7: only start codes
         else (d1.resetFragments, .nalus ns)
 
 /-- `case h265.NALUType_FragmentationUnit`; `tl` is `pkt.Payload[2:]` -/
